@@ -103,7 +103,14 @@ def gen(rng, flavour):
         migrate = {'phase1': rng.random() < 0.6, 'phase2': ph2}
     if migrate is not None and rng.random() < 0.4:
         cfg['debug'] = True
-    return {'cfg': cfg, 'acts': acts, 'foreign': foreign, 'shutdown': shutdown, 'migrate': migrate}
+    rewrap = None
+    if flavour == 'c03' and shutdown is None and migrate is None and not foreign and rng.random() < 0.2:
+        rewrap = []
+        t2 = 0.0
+        for j in range(rng.randint(1, 3)):
+            t2 += rng.choice([0, 8 * U, T + m])
+            rewrap.append({'t': t2, 'k': rng.choice(['call', 'call', 'maplist', 'await']), 'ids': [f'R{j}'], 'd': 0, 'fail': None})
+    return {'cfg': cfg, 'acts': acts, 'foreign': foreign, 'shutdown': shutdown, 'migrate': migrate, 'rewrap': rewrap}
 
 
 class BufferHarness:
@@ -278,6 +285,34 @@ class BufferHarness:
                             raise
                         emit('stopped_at_yield_point', stop_at)
                     # an orderly end: Runner-style shutdown of the idle buffer must terminate too
+                    if prog.get('rewrap') and stop_at is None:
+                        # a second phase of the program on a loop of its own: the SAME function is wrapped again with the
+                        # same timeout while the first wrapper's loop stays open but idle
+                        loop2 = aio.new_event_loop()
+                        aio.set_event_loop(loop2)
+                        emit('phase2_loop', loop2.sim_name if hasattr(loop2, 'sim_name') else 'L2')
+                        buf2 = A.buffer_until_timeout(timeout=T)(func) if cfg['deco'] else A.buffer_until_timeout(func, timeout=T)
+
+                        async def main2():
+                            async def act2(i, a):
+                                if a['t']:
+                                    await aio.sleep(a['t'])
+                                submit(buf2, 'L', f'R{i}', a, 'L')
+                            try:
+                                await aio.gather(*(act2(i, a) for i, a in enumerate(prog['rewrap'])))
+                                emit('wcall', 'final2', 'wait', 'L')
+                                await buf2.wait()
+                                emit('wret', 'final2', 'L')
+                            except RuntimeError as e:
+                                emit('api_error', 'phase2', repr(e)[:200])
+                        loop2.run_until_complete(main2())
+                        ts2 = aio.all_tasks(loop2)
+                        for t in ts2:
+                            t.cancel()
+                        if ts2:
+                            loop2.run_until_complete(aio.gather(*ts2, return_exceptions=True))
+                        loop2.close()
+                        aio.set_event_loop(loop)
                 else:
                     mt = loop.create_task(main_coro())
                     loop.call_later(prog['shutdown'], loop.stop)
@@ -426,6 +461,8 @@ def judge_c03(v: BView, res: CaseResult, verdict):
         if e[0] == 'sanitizer':
             res.violate('C03:thread-affinity', 'asyncio debug mode: non-thread-safe loop call from a foreign thread',
                         what_=e[2])
+        elif e[0] == 'api_error':
+            res.violate('C03:wrapper-unusable', 'submitting to / waiting on a freshly made wrapper raised', what_=e[2])
     for _, e in v.fs:
         ph = set(e[2]) - everything
         if ph:
@@ -684,10 +721,8 @@ class BufferCheck(Check):
         n = self.SIZES[tier]
         nreal = self.REAL[tier] if self.pid in ('C03', 'C07') else 0
         every = max(1, n // max(1, nreal)) if nreal else 0
-        if self.pid == 'C08':
-            # the never-overlapping / never-empty clauses under foreign submitting threads (line-level interleavings)
-            for i in range(6000 if tier == 'quick' else 120000):
-                yield {'o12': True, 'seed': (seed << 32) + i}
+        n12 = (6000 if tier == 'quick' else 120000) if self.pid == 'C08' else 0
+        k12 = 0
         if self.pid == 'C07':
             # loop.stop() at EVERY yield point of the loop thread for four short programs, then shutdown
             for which in range(4):
@@ -697,6 +732,14 @@ class BufferCheck(Check):
             if nreal and i % every == 0 and i // every < nreal:
                 yield {'real': True, 'seed': (seed << 32) + i}
             yield {'seed': (seed << 32) + i}
+            if k12 < n12 and i % max(1, n // n12) == 0:
+                # (C08) the never-twice-at-once / never-empty clauses under foreign submitting threads, interleaved with the
+                # timed programs so that a time-truncated run covers both
+                yield {'o12': True, 'seed': (seed << 32) + k12}
+                k12 += 1
+        while k12 < n12:
+            yield {'o12': True, 'seed': (seed << 32) + k12}
+            k12 += 1
 
     def mini_program(self, which):
         """short fixed programs for the complete shutdown sweep (every yield point of the loop thread)"""
@@ -787,6 +830,8 @@ class BufferCheck(Check):
             st['debug_mode_executions'] += 1
         if prog.get('migrate'):
             st['loop_migrated_to_another_thread'] += 1
+        if prog.get('rewrap'):
+            st['function_wrapped_again_on_a_second_loop'] += 1
         if any(e[0] == 'inject_stop' for e in r.log):
             st['shutdown_swept_at_yield_point'] += 1
         if self.pid == 'C03':
@@ -812,7 +857,8 @@ class BufferCheck(Check):
             st['foreign_thread_programs_judged_O1_O2'] += 1
             res.nontrivial = len(v.fs) >= 2
         else:
-            judge_c08(v, res, prog, complete=r.verdict is None)
+            # a dead-locked execution is final (nothing will ever happen again): what was not delivered never will be
+            judge_c08(v, res, prog, complete=r.verdict in (None, 'deadlock'))
             if r.verdict is not None and not res.violations:
                 res.inconclusive = f'{r.verdict} (termination is C07\'s subject)'
             res.nontrivial = bool(st.get('multi_arrival_bursts_judged') or st.get('arrival_during_run_or_retry'))
